@@ -63,7 +63,7 @@ def gen_program(rng, k, uri, enc):
     files = {}
     feats = []
     n = rng.randint(2, 7)
-    pool = ["relinclude", "relinclude", "nsattrorder", "nsdefault", "annotations", "expr", "modcode", "pycode", "defdefault", "nesteddefault", "block", "callcontent", "include", "namespace", "nsimport",
+    pool = ["cached", "relinclude", "relinclude", "nsattrorder", "nsdefault", "annotations", "expr", "modcode", "pycode", "defdefault", "nesteddefault", "block", "callcontent", "include", "namespace", "nsimport",
             "pageargs", "control", "text", "manynames", "shadow", "capture", "nesteddefault", "defdefault", "nsoverlap", "falsyargs",
             "falsyargs", "nsoverlap"]
     chosen = rng.sample(pool, min(n, len(pool)))
@@ -97,6 +97,12 @@ def gen_program(rng, k, uri, enc):
             names.append(nm)
             defs.append('<%%def name="%s(t=\'T\')">{${t}:${caller.body()}}</%%def>' % nm)
             body.append('<%%call expr="%s()">in ${x}</%%call><%%self:%s t="${z}">via-self</%%self:%s>' % (nm, nm, nm))
+        elif f == "cached":
+            # cached sections under the default backend with nothing configured: every path must be able to render them
+            nm = "cd%d" % j
+            names.append(nm)
+            defs.append('<%%def name="%s()" cached="True">CD(${x})</%%def>' % nm)
+            body.append('${%s()}<%%block name="cb%d" cached="True">CB(${z})</%%block>' % (nm, j))
         elif f == "relinclude":
             # the same relative uri used from two directories: each resolves next to the template that uses it
             import posixpath
